@@ -1543,6 +1543,24 @@ func buildReplay(eng *Engine, o *Obligation, ent *replayEntry, search bool) (src
 			fmt.Fprintf(&body, "\tif !vcReq(func() bool { return %s }) {\n\t\treturn\n\t}\n", g)
 		}
 	}
+	if !search && ent.lemma == nil {
+		// the model's input must satisfy the contract's preconditions on the real values too (it does by
+		// construction for the full assumption set; a candidate from the pruned query may not): a violated or
+		// unevaluable precondition means the run proves nothing
+		for _, c := range ent.fc.Clauses {
+			if c.Kind != "requires" || !(c.Case == "" || c.Case == ent.caseName) {
+				continue
+			}
+			g, err := tr.translate(c.Expr, -1)
+			if err != nil {
+				if ms.variant == "pruned" {
+					fmt.Fprintf(&body, "\tfmt.Println(%q)\n\treturn\n", "VCGO-REPLAY precondition="+c.Label+" not-evaluable: candidate input from the pruned query is not used")
+				}
+				continue
+			}
+			fmt.Fprintf(&body, "\tif !vcReq(func() bool { return %s }) {\n\t\tfmt.Println(%q)\n\t\treturn\n\t}\n", g, "VCGO-REPLAY precondition="+c.Label+" holds=false: the candidate input is outside the contract's domain")
+		}
+	}
 	// old(...) snapshots are taken before the call
 	for k, e := range tr.olds {
 		oe, err := tr.translate(&SpecExpr{Kind: "go", Go: mustParseSafe(e), Subs: map[string]*SpecExpr{}}, 0)
